@@ -1238,7 +1238,6 @@ func ruleC16Generator(w *World, r *Report) {
 	r.floor("R16.9 ranges over maps in the generator", nmaps, 2)
 }
 
-
 func lastSeg(s string) string {
 	if i := strings.LastIndex(s, "."); i >= 0 {
 		return s[i+1:]
